@@ -1,4 +1,5 @@
 import Efp.Theory.Checker
+import Efp.Model.Links
 /-!
 # C15 — a failed recomputation can always be recovered from
 
@@ -13,7 +14,9 @@ every failure position (and every number of failed attempts on the same inputs) 
 This is about *values*.  The code additionally keeps per-value children lists from which later
 chains are derived; after a failure the values recomputed before the failure have lost theirs, so
 "edits after that behave as on a freshly built system" is false of the code (finding D10, replayed by
-the oracle at every raising rule and at injected crash points).
+the oracle at every raising rule and at injected crash points).  The link-bookkeeping model (Model F,
+`Model/Links.lean`, compared with the real code by `K-bookkeeping`) exhibits the mechanism:
+`failed_update_then_revert_loses_children` below.
 -/
 namespace Efp.Props.C15
 open Efp.Theory
@@ -93,5 +96,31 @@ example : Consistent demo (fun n => if n = 0 then 5 else if n = 1 then 6 else if
   intro n hn
   simp only [demo, Bool.or_eq_true, beq_iff_eq] at hn
   rcases hn with rfl | rfl <;> simp [demo]
+
+/-! ## D10 in the link-bookkeeping model
+
+input 0 in slot (0,0); 1 in slot (0,1) computed from 0; 2 in slot (0,2) computed from 1.
+A failing edit: 0 is replaced by 3, then 1 is recomputed (value 4, computed from 3) and the
+recomputation of 2 raises.  Recovery: the previous input 0 is put back in place of 3. -/
+def d10Ops : List Efp.Links.Op :=
+  [.mk [], .setAttr (0, 0) 0, .mk [0], .setAttr (0, 1) 1, .mk [1], .setAttr (0, 2) 2,   -- the model
+   .mk [], .replace 0 3,                                                                -- the edit …
+   .mk [3], .setAttr (0, 1) 4,                                                          -- … first recomputation, then the failure
+   .replace 3 0]                                                                        -- recovery: previous value re-assigned
+
+/-- after the failure and the recovery the links are still mirrored, **but** the re-assigned input
+has lost its children (so a later edit of it derives an empty update order and recomputes nothing),
+and the value recomputed before the failure still records the discarded input as its ancestor -/
+theorem failed_update_then_revert_loses_children :
+    (match Efp.Links.run d10Ops with
+     | .ok s => (Efp.Links.mirrorOk s, (s.get 0).chi, (s.get 4).anc, Efp.Links.liveOk s)
+     | .error _ => (false, [], [], true)) = (true, [], [3], false) := by decide +kernel
+
+/-- while re-running the whole chain after the recovery (what the theorem `revert_restores_values`
+describes for values) would also restore the links -/
+example :
+    (match Efp.Links.run (d10Ops ++ [.mk [0], .setAttr (0, 1) 5, .mk [5], .setAttr (0, 2) 6]) with
+     | .ok s => (Efp.Links.mirrorOk s, (s.get 0).chi, Efp.Links.liveOk s)
+     | .error _ => (false, [], false)) = (true, [5], true) := by decide +kernel
 
 end Efp.Props.C15
